@@ -220,6 +220,12 @@ func VerifC13_Sub() {
 	api := c13Setup()
 	c13Seed(api, "tdb:s/old")
 	api.Handle(c13Msg("s5", "sub", "query tdb:s/"))
+	// possibly a second subscription whose query overlaps: both see every change
+	two := rt.Bool("second-overlapping-subscription")
+	if two {
+		rt.CodecFaults(false) // (serialising the records does not fail here: fewer paths)
+		api.Handle(c13Msg("s6", "sub", "query tdb:"))
+	}
 	rt.Quiesce(time.Second)
 	rt.Assert(len(c13Replies) == 0, "sub/no-reply-before-changes")
 	// changes: a new record, an update, a delete - and one outside the prefix
@@ -245,6 +251,28 @@ func VerifC13_Sub() {
 	rt.Quiesce(time.Second)
 	api.Handle([]byte("s5|cancel"))
 	rt.Quiesce(time.Second)
+	if two {
+		api.Handle([]byte("s6|cancel"))
+		rt.Quiesce(time.Second)
+		var kinds6 []string
+		for _, r := range c13Replies {
+			if bytes.HasPrefix(r, []byte("s6|")) {
+				kinds6 = append(kinds6, c13Kind(r))
+			}
+		}
+		dels := 0
+		for _, k := range kinds6 {
+			if k == "del" {
+				dels++
+			}
+		}
+		wantDels := 1
+		if sameSecond {
+			wantDels = 2
+		}
+		rt.Assert(dels == wantDels, "sub/second-subscription-sees-every-delete")
+		rt.Assert(len(kinds6) > 0 && kinds6[len(kinds6)-1] == "done", "sub/second-subscription-ends-with-done")
+	}
 	var kinds []string
 	for _, r := range c13Replies {
 		if bytes.HasPrefix(r, []byte("s5|")) {
